@@ -86,3 +86,153 @@ def h_set_rendering(n, with_desc):
                 exp = exp + pre_d + descs[i] + "\n"
         exp = exp + 'if anyof (header :is "Subject" "x") {\n    fileinto "F%d";\n}\n' % i
     prove(text == exp, "W.rendering-is-require-then-each-filter-in-order-with-its-comments")
+
+
+# ---------------------------------------------------------------- C06.G: the script generated for each supported form
+
+GEN_CONDITIONS = ["header:is", "header:notcontains", "header-list", "exists", "exists-many", "notexists", "size", "envelope", "envelope-list",
+                  "address", "address-list", "body", "body-not", "currentdate", "currentdate-value", "true", "two-allof"]
+GEN_ACTIONS = ["fileinto", "fileinto-copy", "fileinto-create", "fileinto-copy-create", "fileinto-flags", "redirect", "redirect-copy",
+               "reject", "keep", "discard", "stop", "setflag", "addflag", "removeflag", "vacation", "vacation-subject", "vacation-days",
+               "vacation-seconds", "vacation-from", "vacation-addresses", "vacation-handle", "vacation-mime", "two-actions"]
+
+
+@native
+def re_plain_value():
+    first = sym.re_char_not('",\\:\'[')
+    rest = sym.re_char_not('",\\')
+    return z3.Union(z3.Re(strval("")), z3.Concat(first, z3.Star(rest)))
+
+
+def _q(v):
+    return '"' + v + '"'
+
+
+def h_generated_script(side, kind):
+    """the text FiltersSet writes for one filter of the given form with SYMBOLIC values (no quote, backslash, comma) equals
+    the RFC 5228 / extension-RFC script for that form: the `require` line names exactly the capabilities the form needs,
+    then the marker comment, then `if <matchtype> (<tests>) { <actions> }` with every value as one quoted string"""
+    v = sym_str("value")
+    w = sym_str("other_value")
+    assume(in_re(v, re_plain_value()))
+    assume(in_re(w, re_plain_value()))
+    conds = [("Subject", ":is", "x")]
+    acts = [("keep",)]
+    mt = "anyof"
+    test = 'header :is "Subject" "x"'
+    body = "    keep;\n"
+    req = []
+    if side == "condition":
+        if kind == "header:is":
+            conds = [("X-Tag", ":is", v)]
+            test = 'header :is "X-Tag" ' + _q(v)
+        elif kind == "header:notcontains":
+            conds = [("X-Tag", ":notcontains", v)]
+            test = 'not header :contains "X-Tag" ' + _q(v)
+        elif kind == "header-list":
+            conds = [(["To", "Cc"], ":contains", [v, w])]
+            test = 'header :contains ["To", "Cc"] [' + _q(v) + ", " + _q(w) + "]"
+        elif kind == "exists":
+            conds = [("exists", v)]
+            test = "exists [" + _q(v) + "]"
+        elif kind == "exists-many":
+            conds = [("exists", v, w)]
+            test = "exists [" + _q(v) + "," + _q(w) + "]"
+        elif kind == "notexists":
+            conds = [("notexists", v)]
+            test = "not exists [" + _q(v) + "]"
+        elif kind == "size":
+            conds = [("size", ":over", "100K")]
+            test = "size :over 100K"
+        elif kind == "envelope":
+            conds = [("envelope", ":is", ["from"], [v])]
+            test = 'envelope :is ["from"] [' + _q(v) + "]"
+            req = ["envelope"]
+        elif kind == "envelope-list":
+            conds = [("envelope", ":contains", ["from", "to"], [v, w])]
+            test = 'envelope :contains ["from","to"] [' + _q(v) + "," + _q(w) + "]"
+            req = ["envelope"]
+        elif kind == "address":
+            conds = [("address", ":is", "from", v)]
+            test = 'address :is "from" ' + _q(v)
+        elif kind == "address-list":
+            conds = [("address", ":contains", ["from", "to"], [v, w])]
+            test = 'address :contains ["from","to"] [' + _q(v) + "," + _q(w) + "]"
+        elif kind == "body":
+            conds = [("body", ":raw", ":contains", v)]
+            test = "body :contains :raw [" + _q(v) + "]"
+            req = ["body"]
+        elif kind == "body-not":
+            conds = [("body", ":text", ":notcontains", v, w)]
+            test = "not body :contains :text [" + _q(v) + "," + _q(w) + "]"
+            req = ["body"]
+        elif kind == "currentdate":
+            conds = [("currentdate", ":zone", "+0100", ":is", "date", v)]
+            test = 'currentdate :zone "+0100" :is "date" [' + _q(v) + "]"
+            req = ["date"]
+        elif kind == "currentdate-value":
+            conds = [("currentdate", ":zone", "+0100", ":value", "gt", "date", v)]
+            test = 'currentdate :zone "+0100" :value "gt" "date" [' + _q(v) + "]"
+            req = ["date", "relational"]
+        elif kind == "true":
+            conds = [("true",)]
+            test = "true"
+        else:
+            conds = [("X-Tag", ":matches", v), ("exists", w)]
+            mt = "allof"
+            test = 'header :matches "X-Tag" ' + _q(v) + ", exists [" + _q(w) + "]"
+    else:
+        if kind == "fileinto":
+            acts, body, req = [("fileinto", v)], "    fileinto " + _q(v) + ";\n", ["fileinto"]
+        elif kind == "fileinto-copy":
+            acts, body, req = [("fileinto", ":copy", v)], "    fileinto :copy " + _q(v) + ";\n", ["fileinto", "copy"]
+        elif kind == "fileinto-create":
+            acts, body, req = [("fileinto", ":create", v)], "    fileinto :create " + _q(v) + ";\n", ["fileinto", "mailbox"]
+        elif kind == "fileinto-copy-create":
+            acts, body, req = [("fileinto", ":copy", ":create", v)], "    fileinto :copy :create " + _q(v) + ";\n", ["fileinto", "copy", "mailbox"]
+        elif kind == "fileinto-flags":
+            acts, body, req = [("fileinto", ":flags", [v, "\\Seen"], w)], "    fileinto :flags [" + _q(v) + ', "\\Seen"] ' + _q(w) + ";\n", ["fileinto", "imap4flags"]
+        elif kind == "redirect":
+            acts, body = [("redirect", v)], "    redirect " + _q(v) + ";\n"
+        elif kind == "redirect-copy":
+            acts, body, req = [("redirect", ":copy", v)], "    redirect :copy " + _q(v) + ";\n", ["copy"]
+        elif kind == "reject":
+            acts, body, req = [("reject", v)], "    reject " + _q(v) + ";\n", ["reject"]
+        elif kind == "keep":
+            acts, body = [("keep",)], "    keep;\n"
+        elif kind == "discard":
+            acts, body = [("discard",)], "    discard;\n"
+        elif kind == "stop":
+            acts, body = [("stop",)], "    stop;\n"
+        elif kind in ("setflag", "addflag", "removeflag"):
+            acts, body, req = [(kind, v)], "    " + kind + " " + _q(v) + ";\n", ["imap4flags"]
+        elif kind == "vacation":
+            acts, body, req = [("vacation", v)], "    vacation " + _q(v) + ";\n", ["vacation"]
+        elif kind == "vacation-subject":
+            acts, body, req = [("vacation", ":subject", v, w)], "    vacation :subject " + _q(v) + " " + _q(w) + ";\n", ["vacation"]
+        elif kind == "vacation-days":
+            acts, body, req = [("vacation", ":days", 7, v)], "    vacation :days 7 " + _q(v) + ";\n", ["vacation"]
+        elif kind == "vacation-seconds":
+            acts, body, req = [("vacation", ":seconds", 600, v)], "    vacation :seconds 600 " + _q(v) + ";\n", ["vacation", "vacation-seconds"]
+        elif kind == "vacation-from":
+            acts, body, req = [("vacation", ":from", v, w)], "    vacation :from " + _q(v) + " " + _q(w) + ";\n", ["vacation"]
+        elif kind == "vacation-addresses":
+            acts, body, req = [("vacation", ":addresses", [v, w], "reason")], "    vacation :addresses [" + _q(v) + ", " + _q(w) + '] "reason";\n', ["vacation"]
+        elif kind == "vacation-handle":
+            acts, body, req = [("vacation", ":handle", v, w)], "    vacation :handle " + _q(v) + " " + _q(w) + ";\n", ["vacation"]
+        elif kind == "vacation-mime":
+            acts, body, req = [("vacation", ":mime", v)], "    vacation :mime " + _q(v) + ";\n", ["vacation"]
+        else:
+            acts, body, req = [("fileinto", v), ("redirect", w)], "    fileinto " + _q(v) + ";\n    redirect " + _q(w) + ";\n", ["fileinto"]
+    fs = factory.FiltersSet("t")
+    fs.addfilter("rule", conds, acts, mt)
+    target = RecTarget()
+    fs.tosieve(target)
+    text = ""
+    for p in target.pieces:
+        text = text + p
+    exp = ""
+    if len(req) > 0:
+        exp = "require [" + ", ".join(['"' + r + '"' for r in req]) + "];\n\n"
+    exp = exp + "# Filter: rule\nif " + mt + " (" + test + ") {\n" + body + "}\n"
+    prove(text == exp, "G.generated-script-is-the-RFC-form-with-exactly-the-needed-requires")
